@@ -115,6 +115,31 @@ CHECKS = {
         note=COMMON_NOTE + "That parsing yields well-formed trees (the converse direction) is not proved; the harness checks it on every generated case.",
         technique="Coq proof (rendering relation: format => Renders => parse, by mutual induction over the grammar) + differential execution over widths",
         design="5/C10"),
+    "C08": dict(
+        text="Theorems over the model of the generated bindings: dec (enc v) = v for every typedef environment, IDL type and well-typed value; parameter structs of calls/replies/errors with "
+             "unset optionals omitted are read back; enums are their names, string sets objects of empty objects, struct keys exactly the field names; a missing required or ill-typed member makes "
+             "the parameters unreadable (InvalidParameter). Tie: (static) the struct/enum definitions the real generator emits are read back and compared with the model for every IDL; (dynamic) the "
+             "emitted module is compiled with a harness-written server and client and exercised over a socketpair: wire bytes, values seen by the implementation and values returned to the client. "
+             "PARTIAL: serde-derive semantics are modelled; rustc/serde are trusted.",
+        note=COMMON_NOTE + "Value domain: floats finite in Rust's printed form, ?object not Some(null).",
+        technique="Coq proof (type-directed codec round trip by induction on the typing derivation) + translation validation of emitted types + compiled client/server round trips",
+        design="5/C08"),
+    "C09": dict(
+        text="Theorems: the generator model runs to completion iff no field/enum-member/typedef name is self/Self/super/crate; the naming scheme of emitted types is injective (NoDup) for every "
+             "definition with distinct underscore-free member names, underscore-free distinct sibling field names and no anonymous type in error parameters; emitted names are member-name ++ path. "
+             "PARTIAL, stated plainly: 'compiles' is rustc's judgement; it is decided by generating and cargo-checking grammar-directed definitions (library API, CLI binary, proc macro) outside the "
+             "known classes. Known findings (six classes, each with a Coq witness and a reproducer) are reported as KNOWN-FINDING.",
+        note=COMMON_NOTE + "The known classes are decided by Gen.known_classes (extracted); a compile failure outside them is a violation.",
+        technique="Coq proof (naming injectivity via split/join at underscores; totality iff no reserved identifier) + generate-and-compile with rustc",
+        design="5/C09"),
+    "C16": dict(
+        text="Theorems at the regenerated prefix tables and constants: client and server classify every address string alike; an address is InvalidAddress on both iff it starts with neither tcp: nor unix:; "
+             "a server honours activation only if LISTEN_PID names it and LISTEN_FDS >= 1 (fd 3 for one descriptor, 3 + index of 'varlink' otherwise); the environment with_activate gives its child activates "
+             "exactly that child with descriptor 3. PARTIAL: fork/exec, descriptor passing and sockets are the OS: the C01 sequences are run through unix path (with/without ;mode=), abstract, TCP, "
+             "with_activate and with_bridge and must give identical reply sequences; the activated child's environment and fd table are inspected; LISTEN_* matrix against a probing server process.",
+        note=COMMON_NOTE + "Every constructor call runs under a watchdog.",
+        technique="Coq proof over translated address tables and activation constants + transport runs with environment/fd inspection",
+        design="5/C16"),
 }
 
 ALL = ["C%02d" % i for i in range(1, 21)]
